@@ -42,6 +42,13 @@ func seqProfile(prop string, cas int, tier string) Profile {
 			p.DiskBlocks = []uint64{1800, 2600}[(cas/8)%2]
 			p.W[OpSymlink] *= 3
 		}
+		if cas%8 == 2 {
+			// block recycling: big truncations immediately followed by writes
+			// across the new end, sparse bursts around the index-range borders
+			p.Recycle = true
+			p.Big = false
+			p.DiskBlocks = 9000
+		}
 		if cas%16 == 7 {
 			// data beyond block 32768 (second block of the block bitmap)
 			p.HighBlocks = true
@@ -54,7 +61,7 @@ func seqProfile(prop string, cas int, tier string) Profile {
 	case "C04":
 		p.NOps = 140
 		p.DiskBlocks = 12000
-		p.PDead, p.PWrongKind, p.PBadName = 3, 4, 8
+		p.PDead, p.PWrongKind, p.PBadName = 3, 8, 8
 		p.FsckEvery = 1
 		p.WalkEvery = 70
 		p.RestartEvery = 40
